@@ -267,7 +267,17 @@ func (cln *Client) Ping(onComplete OnCompleteFunc) error {
 // terminates after the sending of the DISCONNECT message.
 func (cln *Client) Disconnect() {
 	msg := message.NewDisconnectMessage()
-	writeMessage(cln.svc.conn, msg)
+
+	// Queue the DISCONNECT behind whatever is still in the outgoing buffer and
+	// give the sender a moment to flush it: written straight to the socket it
+	// could land in the middle of a packet the sender goroutine is writing.
+	if _, err := cln.svc.writeMessage(msg); err == nil {
+		deadline := time.Now().Add(time.Second * time.Duration(cln.ConnectTimeout))
+		for cln.svc.outLen() > 0 && time.Now().Before(deadline) {
+			time.Sleep(time.Millisecond)
+		}
+	}
+
 	cln.svc.stop()
 }
 
